@@ -23,30 +23,33 @@ from harness import check, judge, tlc
 # (lens module, cfg, max emitted lines read (None: all), sample size above one operation (None: all))
 LENSES = {
     "quick": [
-        ("prog_arith", "prog_arith", None, 220),
-        ("prog_cmp", "prog_cmp", None, 180),
-        ("prog_pos", "prog_pos", None, 180),
-        ("prog_int", "prog_int", None, 180),
-        ("prog_con", "prog_con", None, 220),
-        ("prog_tuple", "prog_tuple", None, 100),
-        ("prog_deep", "prog_deep", None, 160),
-        ("prog_nested", "prog_nested", None, 40),
-        ("prog_tenin", "prog_tenin", None, 40),
+        ("prog_arith", "prog_arith", None, 150),
+        ("prog_cmp", "prog_cmp", None, 120),
+        ("prog_pos", "prog_pos", None, 120),
+        ("prog_int", "prog_int", None, 120),
+        ("prog_con", "prog_con", None, 150),
+        ("prog_tuple", "prog_tuple", None, 70),
+        ("prog_deep", "prog_deep", None, 110),
+        ("prog_nested", "prog_nested", None, 30),
+        ("prog_tenin", "prog_tenin", None, 30),
     ],
     "thorough": [
-        ("prog_arith", "prog_arith_t", None, 9000),
-        ("prog_cmp", "prog_cmp_t", None, 7000),
-        ("prog_pos", "prog_pos_t", None, 6000),
-        ("prog_int", "prog_int_t", None, 6000),
-        ("prog_con", "prog_con_t", None, 9000),
-        ("prog_tuple", "prog_tuple_t", None, 3000),
-        ("prog_deep", "prog_deep_t", None, 9000),
+        ("prog_arith", "prog_arith_t", None, 3000),
+        ("prog_cmp", "prog_cmp_t", None, 2500),
+        ("prog_pos", "prog_pos_t", None, 2500),
+        ("prog_int", "prog_int_t", None, 2500),
+        ("prog_con", "prog_con_t", None, 3000),
+        ("prog_tuple", "prog_tuple_t", None, 1200),
+        ("prog_deep", "prog_deep_t", None, 3000),
         ("prog_nested", "prog_nested_t", None, 300),
         ("prog_tenin", "prog_tenin_t", None, 300),
     ],
 }
 MODEL_CFG = {"quick": "OpProgram", "thorough": "OpProgram_t"}
-PROCS = 14
+PROCS = 14          # python worker processes
+JUDGE_PROCS = 10    # single-worker TLC processes judging side by side
+JUDGE_CHUNK = 2000  # events per TLC process (bounds its memory)
+BATCH = 4000        # expressions validated per round (bounds the driver's memory)
 
 
 def _pd():
@@ -133,7 +136,7 @@ def judge_all(events, out):
     for attempt in range(6):
         if not todo:
             break
-        chunk = max(50, (len(todo) + PROCS - 1) // PROCS)
+        chunk = min(JUDGE_CHUNK, max(50, (len(todo) + JUDGE_PROCS - 1) // JUDGE_PROCS))
         parts = list(judge.chunks(todo, chunk))
 
         def one(evs):
@@ -141,7 +144,7 @@ def judge_all(events, out):
             jr.judge(evs, timeout=1500)
             return jr, evs
 
-        with ThreadPoolExecutor(PROCS) as ex:
+        with ThreadPoolExecutor(JUDGE_PROCS) as ex:
             runs = list(ex.map(one, parts))
         todo = []
         for jr, evs in runs:
@@ -258,11 +261,33 @@ def run(tier):
         recs.extend(chosen)
     t_gen = time.time() - t0
 
-    st = validate(out, recs, t0)
-    events, notes, via_ok, via_bad = st["events"], st["notes"], st["via_ok"], st["via_bad"]
-    points, undefined_points, runs, pts_run, rejections = (st["points"], st["undefined_points"], st["runs"],
-                                                           st["pts_run"], st["rejections"])
-    j_states, j_trans, t_a, t_j, t_c = st["j_states"], st["j_trans"], st["t_a"], st["t_j"], st["t_c"]
+    notes, via_ok, via_bad = Counter(), Counter(), Counter()
+    points = undefined_points = runs = pts_run = rejections = j_states = j_trans = 0
+    n_prog_events = nontrivial = 0
+    t_a = t_j = t_c = 0.0
+    samples = []
+    for batch in judge.chunks(recs, BATCH):
+        st = validate(out, batch)
+        notes.update(st["notes"])
+        via_ok.update(st["via_ok"])
+        via_bad.update(st["via_bad"])
+        points += st["points"]
+        undefined_points += st["undefined_points"]
+        runs += st["runs"]
+        pts_run += st["pts_run"]
+        rejections += st["rejections"]
+        j_states += st["j_states"]
+        j_trans += st["j_trans"]
+        t_a += st["t_a"]
+        t_j += st["t_j"] - st["t_a"]
+        t_c += st["t_c"] - st["t_j"]
+        pe = [e for e in st["events"] if e["kind"] == "prog"]
+        n_prog_events += len(pe)
+        nontrivial += sum(1 for e in pe if e["prog"]["ops"])
+        if len(samples) < 4:
+            for e in pe[:: max(1, len(pe) // 4)][:4]:
+                samples.append({"via": e["via"], "expr": e["expr"], "prog": e["prog"]})
+        del st, pe
 
     # the model check
     model_future.result()
@@ -283,11 +308,6 @@ def run(tier):
         import json
         with open(os.environ["VERIF_C18_DUMP"], "w") as f:
             json.dump(out.violations, f, default=str)
-    prog_events = [e for e in events if e["kind"] == "prog"]
-    nontrivial = sum(1 for e in prog_events if e["prog"]["ops"])
-    samples = []
-    for e in prog_events[:: max(1, len(prog_events) // 4)][:4]:
-        samples.append({"via": e["via"], "expr": e["expr"], "prog": e["prog"]})
     out.coverage = {
         "states": model.distinct + sum(i["distinct"] for i in lens_info) + j_states,
         "transitions": model.generated + sum(i["generated"] for i in lens_info) + j_trans,
@@ -297,7 +317,7 @@ def run(tier):
                                  "Inv_Reject", "Inv_EnvShape", "Inv_Fragment"]},
         "lenses": lens_info,
         "expressions": len(recs),
-        "traces_validated_against_impl": len(prog_events),
+        "traces_validated_against_impl": n_prog_events,
         "programs_by_via": {k: via_ok[k] + via_bad[k] for k in sorted(set(via_ok) | set(via_bad))},
         "programs_rejected_by_tlc": dict(via_bad),
         "bindings_run_by_tlc": points,
@@ -308,12 +328,12 @@ def run(tier):
         "distinct_nontrivial": nontrivial,
         "rule": "one event per (expression variant, via) program; non-trivial = the program has at least one "
                 "operation; every program is run by TLC on every binding of the sampled input space",
-        "samples": samples,
+        "samples": samples[:4],
         "notes": dict(notes.most_common(40)),
         "violation_groups_before_known_findings": dict(groups.most_common(40)),
         "exhaustive": all(i["all_used"] and i["complete"] for i in lens_info),
         "phase_wall_s": {"generate": round(t_gen, 1), "programs": round(t_a, 1), "tlc_judge": round(t_j, 1),
-                         "run_programs": round(t_c, 1)},
+                         "run_programs": round(t_c, 1), "total": round(time.time() - t0, 1)},
     }
     out.assumptions = [
         "real inputs are bound to 4 exact sample points per lens (rotations for Reals[2]); integer inputs to their whole range",
